@@ -19,8 +19,10 @@ GROUPS = {
             dict(name="advance_slices_5", complete=True, targets=["advance_slices"], covers=1, tier="thorough", timeout=900,
                  bound="5 slices (= SmallVec<[_;5]> call site)"),
             dict(name="advance_slices_overrun_panics", complete=True, should_panic=True, targets=["advance_slices"], tier="quick"),
-            dict(name="write_all_vectored_scripted_3x2", complete=False, targets=["write_all_vectored"], covers=2, tier="thorough", timeout=1500,
-                 bound="<= 3 slices x <= 2 bytes, <= 6 writer calls (accept k / Interrupted / Ok(0) / hard error, symbolic per call)"),
+            dict(name="write_all_vectored_scripted_2", complete=False, targets=["write_all_vectored"], covers=2, tier="thorough", timeout=3000,
+                 bound="2 slices x <= 2 bytes, <= 3 writer calls (accept any k / Interrupted / Ok(0) / hard error, symbolic per call)"),
+            dict(name="write_all_vectored_scripted_3", complete=False, targets=["write_all_vectored"], covers=2, tier="thorough", timeout=1500,
+                 bound="3 slices x <= 2 bytes, <= 3 writer calls"),
         ],
     ),
     "emf_num": dict(
@@ -84,11 +86,11 @@ GROUPS = {
             dict(name="ratio_none_to_any", complete=True, targets=["Convert::RATIO"]),
             dict(name="tag_units_are_the_declared_ones", complete=True, targets=["UnitTag::UNIT"]),
             dict(name="convert_structure_all_observations", complete=True, targets=["Convert::convert"], timeout=600,
-                 bound="all observations (all u64 / f64 payloads) for 6 representative pairs; loop-free"),
-            dict(name="convert_preserves_quantity_small_integers", complete=False, targets=["Convert::convert"], timeout=600,
-                 bound="unsigned values below 2^16 for 3 pairs (float product out of reach for all values)"),
-            dict(name="with_unit_checks_then_converts", complete=True, targets=["WithUnit::write"], timeout=600,
-                 bound="all u32 payloads; honest / lying-unit / string values"),
+                 bound="all observations (all u64 / f64 payloads) for 7 representative pairs: variant mapping, occurrences, bit-identity when ratio is 1; loop-free"),
+            dict(name="convert_values_on_probes", complete=False, targets=["Convert::convert"], timeout=600,
+                 bound="6 unsigned + 6 float + 6 repeated concrete probe values (incl. 2^53+1, u64::MAX, 1e300, subnormal) for 8 pairs; the float product for ALL values is out of CBMC's reach"),
+            dict(name="with_unit_checks_then_converts", complete=True, targets=["WithUnit::write"], timeout=600, uses_stubs=True,
+                 bound="honest / lying-unit / string values; structure symbolic, payload on 3 concrete probes"),
         ],
     ),
     "timers_shared": dict(
